@@ -137,27 +137,3 @@ Proof.
     destruct (d_array d); auto. destruct (d_view d); reflexivity. }
   rewrite E. apply filter_true_id. intros z Hz. apply zmem_In. exact Hz.
 Qed.
-
-Lemma renderings_refuted :
-  exists d empties signed bogus,
-    NoDup (d_ids d) /\
-    anchored_display d OPayload empties = Ok signed /\
-    anchored_display_bogus d OPayload empties = Ok bogus /\
-    bogus <> map (fun z => if Z.ltb z 0
-                           then EIns (nth (Z.to_nat (Z.of_nat (List.length (subtotals d)) + z))
-                                          (map fst (subtotals d)) 0%Z)
-                           else EBase z) signed.
-Proof.
-  pose (el := fun i => mkElem (IInt i) false DNone).
-  pose (A := mkIns (Some 1%Z) (IInt 1%Z) true false [IInt 1%Z]).
-  pose (B := mkIns (Some 2%Z) (IInt 2%Z) true false [IInt 1%Z]).
-  exists (mkDim [el 1%Z; el 2%Z; el 3%Z] false [A; B] (Some [B; A]) [] false).
-  exists [].
-  exists [0; -1; 1; -2; 2]%Z.
-  exists [EBase 0; EIns 2; EBase 1; EIns 1; EBase 2]%Z.
-  split; [|split; [|split]].
-  - repeat constructor; simpl; intuition discriminate.
-  - vm_compute. reflexivity.
-  - vm_compute. reflexivity.
-  - vm_compute. intros H. discriminate H.
-Qed.
